@@ -74,7 +74,7 @@ def leaf():
 
 
 ATTRS = st.lists(st.tuples(st.sampled_from(["lang", "class", "data-x", "id"]), st.sampled_from(["en", "a b", True, 7, {"html": "&q;"}, 'x"y'])).map(list), max_size=3, unique_by=lambda p: p[0])
-KW = st.lists(st.tuples(st.sampled_from(["lang", "class_", "data_x", "dir", "id"]), st.sampled_from(["fr", "k", True, None, False, 3, {"html": "&v;"}])).map(list), max_size=3, unique_by=lambda p: p[0])
+KW = st.lists(st.tuples(st.sampled_from(["lang", "class_", "data_x", "dir", "id"]), st.sampled_from(["fr", "k", True, None, False, 3, {"html": "&v;"}, 0, 0.0, "", "0", 1, 1.0])).map(list), max_size=3, unique_by=lambda p: p[0])
 
 
 def tag(children, names=st.sampled_from(["div", "span", "p", "section", "b", "main", "pre", "textarea", "table", "tr", "td", "select", "a", "li", "button", "br", "x-el"])):
@@ -324,6 +324,7 @@ def _assemble_body(case, note):
         "inline-body" if shape == "body" and not case["content"][0]["ws"] else "",
         "body-plus-more" if len(case["content"]) > 1 and case["content"][0]["k"] == "tag" and case["content"][0]["name"] == "body" else "",
         "json-render-mode" if case.get("mode") == "json" and res else "",
+        "falsy-but-present-html-attribute" if any(v is not None and v is not False and not v for _, v in case["kw"]) else "",
         "user-head-with-own-meta/link/script" if user_head and any(k["k"] == "tag" and k["name"] in ("meta", "base", "link", "script") for k in _user_head_kids(case["content"])) else "",
     )
 
@@ -471,7 +472,7 @@ CLAUSES = [
         quick=700,
         thorough=10000,
         shards_quick=4,
-        required=("shape:html", "shape:body", "shape:fragment", "later-content", "user-head-with-dep", "kw-collides", "version-collision", "headc", "no-deps", "head-after-body", "body-plus-more", "rendered-again-after-change", "inline-body", "json-render-mode", "user-head-with-own-meta/link/script"),
+        required=("shape:html", "shape:body", "shape:fragment", "later-content", "user-head-with-dep", "kw-collides", "version-collision", "headc", "no-deps", "head-after-body", "body-plus-more", "rendered-again-after-change", "inline-body", "json-render-mode", "user-head-with-own-meta/link/script", "falsy-but-present-html-attribute"),
         rule="see RULE",
     ),
 ]
